@@ -1202,7 +1202,7 @@ def refine_specs(draw) -> dict:
             "hits": [hits[i] for i in order]}
 
 
-GRID = [0, 3, 6, 8, 12, 16]
+GRID = [0, 4, 6, 10, 12, 18]   # pA: 2 noise, 4 incomplete, >= 6 complete, margin 2; pB: <= 6 noise, 8 incomplete, >= 12 complete, margin 4
 
 
 def _grid_hits() -> list:
